@@ -20,7 +20,7 @@ FUNCS = ["sum", "nanmean", "max", "nanmin", "count", "nanfirst", "nanlast", "arg
 REQS = [None, [0, 1, 2], [2, 0, 1], [1, 0], [2, 1, 0, 3]]
 
 
-def build(vals, codes, req, sort, func, mode, label_kind, engine):
+def build(vals, codes, req, sort, func, mode, label_kind, engine, req_form="array"):
     n = len(vals)
     has_missing = min(codes) < 0
     kind = "float" if has_missing else label_kind
@@ -31,7 +31,9 @@ def build(vals, codes, req, sort, func, mode, label_kind, engine):
     if engine == "flox" and func in redcase.ARG_FUNCS:
         return None
     c = {"func": func, "vals": vals, "dtype": "f8", "codes": codes, "label_kind": kind, "req": req, "sort": sort, "fill": fill,
-         "engine": engine, "ddof": 1 if func in redcase.VAR_FUNCS else None}
+         "engine": engine, "ddof": 1 if func in redcase.VAR_FUNCS else None, "req_form": req_form}
+    if req is None and req_form != "array":
+        return None
     if mode != "eager":
         method, chunks_i, by_dask = mode
         comps = gen.compositions(n)
@@ -56,9 +58,9 @@ def run(ctx):
     codes6 = [[2, 0, 1, 0, 2, 1], [1, 1, 0, 0, 2, 2], [2, 2, 1, 1, 0, 0], [0, 1, 2, 0, 1, 2], [1, -1, 0, 2, 1, -1], [2, 1, 0, 2, 1, 0]]
     modes = ["eager"] + [(m, i, d) for m in (None, "map-reduce", "cohorts", "blockwise") for i in range(0, 16, 3) for d in (False, True)]
     sp5 = gen.Space("n5", {"vals": vals5, "codes": codes5, "req": REQS, "sort": [True, False], "func": FUNCS, "mode": modes,
-                           "label_kind": ["int", "str", "float"], "engine": [None, "numpy", "flox"]}, build)
+                           "label_kind": ["int", "str", "float"], "engine": [None, "numpy", "flox"], "req_form": ["array", "index", "list"]}, build)
     sp6 = gen.Space("n6", {"vals": vals6, "codes": codes6, "req": REQS, "sort": [True, False], "func": FUNCS, "mode": modes,
-                           "label_kind": ["int", "str", "float"], "engine": [None, "numpy"]}, build)
+                           "label_kind": ["int", "str", "float"], "engine": [None, "numpy"], "req_form": ["array", "index", "list"]}, build)
     budget = 20000 if ctx.tier == "quick" else 300000
     cases = sp5.sample(ctx.rng, budget // 2) + sp6.sample(ctx.rng, budget // 2)
     ctx.cov["space"] = {"n5": sp5.size, "n6": sp6.size}
